@@ -14,7 +14,9 @@ def gens_of(sidecars):
 
 def native_refute(uni, sidecar_modules, ob, replay_dir, limit=4000):
     """small-scope search on the REAL function under the same contract (native evaluation).
-    returns a witness dict (already replayed on the real code) or None."""
+    returns a witness dict (already replayed on the real code) or None. Generator inputs are states the real
+    code produced itself from a valid initial state, so a `requires` broken by an earlier call does not stop
+    the search (the first broken clause is the witness, later ones are reported with it)."""
     key = ob.func
     gens = gens_of(sidecar_modules)
     if key not in gens:
@@ -22,20 +24,33 @@ def native_refute(uni, sidecar_modules, ob, replay_dir, limit=4000):
     fn, cls = native.real_function(uni, key)
     nat = native.Native(uni)
     n = 0
+    found = []
+    want = ob.name.split("/", 1)[1].split("~")[0] if "/" in ob.name else ""
     for self_obj, args in gens[key]():
         n += 1
-        if n > limit:
+        if n > limit or len(found) >= 40:
             break
         try:
             desc = "self=%r args=%r" % (getattr(self_obj, "__dict__", self_obj), args)
         except Exception:      # noqa
             desc = "<unprintable>"
         try:
-            nat.check_call(key, fn, self_obj, args, ghost_exit=uni.contracts[key].get("ghost_exit_native"))
+            nat.check_call(key, fn, self_obj, args, check_requires=not found)
         except native.ContractViolation as v:
-            return {"function": key, "input": desc[:1500], "clause": v.clause, "detail": v.detail[:500],
-                    "inputs_tried": n, "how": "native small-scope search: real function executed under the sidecar contract"}
-    return None
+            found.append({"function": key, "input": desc[:1500], "clause": v.clause, "detail": v.detail[:500],
+                          "inputs_tried": n,
+                          "how": "native small-scope search: real function executed under the sidecar contract"})
+        except Exception:      # noqa
+            continue
+    if not found:
+        return None
+    best = [f for f in found if f["clause"] == want] or found
+    w = dict(best[0])
+    w["all_failing_clauses"] = sorted({f["clause"] for f in found})
+    prop_level = [f for f in found if not f["clause"].startswith("post[Inv")]
+    if prop_level and prop_level[0] is not best[0]:
+        w["property_level_witness"] = prop_level[0]
+    return w
 
 
 def native_sweep(uni, sidecar_modules, keys, limit=100000):
